@@ -317,8 +317,15 @@ def _run_own(ctx):
     PAY = {"small": b"retry me", "large": gen_payload(LARGE)}
     crashes = [0]
 
+    last_case = [None]
+
     def fresh_cred(size):
-        r, _ = rig.encode(cr.d.sock, uid=0, gid=0, data=PAY[size])
+        r, st = rig.encode(cr.d.sock, uid=0, gid=0, data=PAY[size])
+        if r is None:
+            # the daemon no longer answers an ordinary encode request: it died (or wedged) in the case before this one
+            rc_ = cr.d.p.poll() if getattr(cr.d, "p", None) is not None else None
+            raise DaemonGone("munged %s after the case %s (an ordinary encode request now gets: %s)"
+                             % (("terminated with status %s" % rc_) if rc_ is not None else "stopped answering", last_case[0], st), last_case[0])
         return r["data"]
 
     def model_trace(phases):
@@ -381,6 +388,7 @@ def _run_own(ctx):
         payload = PAY[size]
         px.set_plan(plan)
         case = {"op": "decode", "size": size, "payload_len": len(payload), "plan": [list(f) for f in plan], "kind": kind}
+        last_case[0] = case
         ctx.count(("decode", size, kind, tuple(plan)))
         dist[kind] = dist.get(kind, 0) + 1
         d, trace = cl.op(hang_of(plan), "D " + cred.rstrip(b"\0").hex())
@@ -765,10 +773,21 @@ def broken_phase(ctx):
         ctx.violation("sanitizer report from the daemon after broken connections", {"report": rep[:3000]}, found_input=False)
 
 
+class DaemonGone(Exception):
+    def __init__(self, text, case):
+        Exception.__init__(self, text)
+        self.case = case
+
+
 def run(ctx):
     """the property's own check, then the component check of the socket I/O loops (fd.c) that every request and reply of
     this property goes through: Properties_FD.v + correspondence FdModel ~ /repo's fd.c (tools/props/fd_common.py)"""
-    proved = _run_own(ctx)
+    try:
+        proved = _run_own(ctx)
+    except DaemonGone as e:
+        ctx.violation("the daemon does not survive a connection fault: %s; the credential of that case can no longer be decoded by anybody" % e,
+                      {"case": e.case, "obligation": "munged keeps serving across broken connections"})
+        return
     if not ctx.violations and not proved:
         ctx.violation("proof obligation no longer checks: %s" % getattr(ctx, "broken_obligation", "Properties_C13.v missing"),
                       {"obligation": getattr(ctx, "broken_obligation", "?"), "log": ctx.proof_log[-3000:]}, found_input=False)
